@@ -520,6 +520,18 @@ func (e *Engine) theoryAxioms(theories []string) ([]*Term, []string, error) {
 		out = append(out, t)
 		names = append(names, a.Theory+"/"+a.Name)
 	}
+	// a proved lemma may be used by name ("uses LemmaName"): it is an obligation of its own property check
+	for _, l := range e.contracts.Lemmas {
+		if !want[l.Name] {
+			continue
+		}
+		t, err := e.axiomTerm(l)
+		if err != nil {
+			return nil, nil, err
+		}
+		out = append(out, t)
+		names = append(names, "lemma/"+l.Name)
+	}
 	return out, names, nil
 }
 
